@@ -48,10 +48,7 @@ func (c *Ctx) observeList(l, twin string, obs string) {
 	case "string":
 		m.String(l)
 	case "fmtstr":
-		m.FormatString(l, 2)
-		m.FormatString(l, 0)
-		m.FormatString(l, 7)
-		m.FormatString(l, 1)
+		m.FormatString(l, 2) // the same indent every time: a memoised layout must follow the data
 	case "equals":
 		m.Equals(l, twin)
 		m.Equals(twin, l)
@@ -228,9 +225,137 @@ func (c *Ctx) omoList(prop string) {
 			c.observeList(l, twin, obs)
 			c.mutateList(l, inner, innerO, mut)
 			c.observeList(l, twin, obs)
+			c.observeList(l, twin, obs)           // observing twice in a row gives the same answers
 			c.mutateList(l, inner, innerO, "pop") // a second, different step: memoised state must follow
 			c.observeList(l, twin, obs)
 			c.St.Eval("omo:"+obs+":"+mut, true)
+		}
+	}
+	// the same on flat lists (no nested container), short and long, and on mixed numeric lists:
+	// fast paths and memoised values often apply to exactly these
+	for _, obs := range listObservers[prop] {
+		for _, mut := range []string{"reverse", "sort", "pop", "replace0", "settf-samekind", "add", "delete0", "insertmid", "clear", "replace-samekind"} {
+			for _, base := range []string{"flat", "flat-long", "numeric-mixed", "numeric-long", "rounding"} {
+				m.Case("observe-mutate-observe-flat")
+				var gs []*GV
+				switch base {
+				case "flat":
+					gs = []*GV{gvInt(3), gvStr("b\n"), gvFloat(2), gvBool(true), gvNil(), gvInt(1), gvStr("a"), gvFloat(20)}
+				case "flat-long":
+					for i := 0; i < 40; i++ {
+						switch i % 4 {
+						case 0:
+							gs = append(gs, gvInt(40-i))
+						case 1:
+							gs = append(gs, gvStr("s"+strconv.Itoa(i)+"\""))
+						case 2:
+							gs = append(gs, gvFloat(float64(i)))
+						default:
+							gs = append(gs, gvBool(i%8 == 3))
+						}
+					}
+				case "numeric-mixed":
+					gs = []*GV{gvInt(3), gvFloat(1.5), gvInt(7), gvFloat(2.25), gvInt(-4), gvFloat(3)}
+				case "numeric-long":
+					for i := 0; i < 36; i++ {
+						if i%3 == 0 {
+							gs = append(gs, gvFloat(float64(36-i))) // whole-valued floats among ints
+						} else {
+							gs = append(gs, gvInt(i*7%11))
+						}
+					}
+				case "rounding":
+					gs = []*GV{gvFloat(1e16), gvFloat(1), gvFloat(-1e16), gvFloat(0.5)}
+				}
+				l := m.NewList(gs...)
+				twin := m.NewList(gs...)
+				c.observeList(l, twin, obs)
+				c.mutateList(l, "", "", mut)
+				c.observeList(l, twin, obs)
+				c.observeList(l, twin, obs)
+				c.mutateList(l, "", "", "reverse")
+				c.observeList(l, twin, obs)
+				c.St.Eval("omo-flat:"+obs+":"+mut+":"+base, true)
+			}
+		}
+	}
+	c.provenance(prop)
+}
+
+// provenance: the observers of a property on lists that came into being through another operation
+// (not built directly by a constructor), followed by a mutation of the result and of its source.
+func (c *Ctx) provenance(prop string) {
+	m := c.M
+	ways := []string{"concat-empty", "concat-kinds", "concat-self", "sublist-full", "sublist-part", "clone", "filter-all", "map-id", "parsed", "newlistfrom", "newlistof", "sorted", "reversed", "values", "keys", "slice-rebuilt"}
+	for _, obs := range listObservers[prop] {
+		for _, way := range ways {
+			m.Case("provenance")
+			inner := m.NewList(gvInt(1), gvInt(2))
+			src := m.NewList(gvInt(3), gvInt(1), gvInt(2))
+			if obs != "sort" && obs != "agg" {
+				src = m.NewList(gvInt(3), gvStr("x"), m.RefGV(inner), gvInt(1))
+			}
+			var res string
+			switch way {
+			case "concat-empty":
+				res = m.Concat(src, m.NewList())
+			case "concat-kinds":
+				res = m.Concat(src, m.NewList(gvFloat(2.5), gvBool(true), gvNil(), m.RefGV(m.NewObject(gvStr("k"), gvInt(1))), gvStr("tail")))
+				if obs == "sort" || obs == "agg" {
+					res = m.Concat(src, m.NewList(gvInt(9), gvInt(-9)))
+				}
+			case "concat-self":
+				res = m.Concat(src, src)
+			case "sublist-full":
+				res = m.SubList(src, 0, 0)
+			case "sublist-part":
+				res = m.SubList(src, 1, 0)
+			case "clone":
+				res = m.Clone(src)
+			case "filter-all":
+				res = m.Filter(src, "all")
+			case "map-id":
+				res = m.Map(src, &Fn{Name: "id"})
+			case "parsed":
+				res = m.Parse('L', m.L(src).String())
+			case "newlistfrom":
+				res = m.NewListFrom(&GV{K: '(', Fl: 'a', Xs: []*GV{gvInt(3), gvStr("x"), gvInt(1)}})
+			case "newlistof":
+				res = m.NewListOf(gvInt(7), 4)
+				m.Replace(res, 1, gvInt(2))
+			case "sorted":
+				res = m.NewList(gvInt(3), gvInt(1), gvInt(2))
+				m.Sort(res)
+			case "reversed":
+				res = src
+				m.Reverse(res)
+			case "values":
+				res = m.Values(m.NewObject(gvStr("a"), gvInt(1), gvStr("l"), m.RefGV(inner)))
+			case "keys":
+				res = m.Keys(m.NewObject(gvStr("a"), gvInt(1), gvStr("b"), gvInt(2)))
+			case "slice-rebuilt":
+				res = m.NewList()
+				for _, v := range m.L(src).Slice() {
+					m.Add(res, gvOfValue(m, v))
+				}
+			}
+			if res == "" {
+				continue
+			}
+			twin := m.Clone(res)
+			c.observeList(res, twin, obs)
+			c.mutateList(src, inner, "", "add")
+			c.observeList(res, twin, obs)
+			c.mutateList(res, inner, "", "replace-samekind")
+			c.observeList(res, twin, obs)
+			c.observeList(src, twin, obs)
+			if sortable(m.L(res)) {
+				m.Sort(res) // sorting a derived list never reorders its source
+				m.Sort(src)
+			}
+			m.Reverse(res)
+			c.observeList(res, twin, obs)
+			c.St.Eval("provenance:"+obs+":"+way, true)
 		}
 	}
 }
@@ -242,8 +367,6 @@ func (c *Ctx) observeObj(o, twin string, obs string) {
 		m.OString(o)
 	case "ofmtstr":
 		m.OFormatString(o, 2)
-		m.OFormatString(o, 0)
-		m.OFormatString(o, 5)
 	case "oequals":
 		m.OEquals(o, twin)
 		m.OEquals(twin, o)
@@ -354,6 +477,7 @@ func (c *Ctx) omoObj(prop string) {
 			_ = other
 			c.observeObj(o, twin, obs)
 			c.mutateObj(o, inner, innerO, mut)
+			c.observeObj(o, twin, obs)
 			c.observeObj(o, twin, obs)
 			c.mutateObj(o, inner, innerO, "unset-then-set")
 			c.observeObj(o, twin, obs)
@@ -505,6 +629,8 @@ func (c *Ctx) growShrink() {
 					m.Clear(l)
 				}
 				if n == peak/2 || n == peak/4+1 || n == 3 {
+					m.Add(l, gvInt(1), gvUnsupported(0), gvInt(2)) // a rejected value in a batch, with spare capacity behind the end
+					m.Pop(l)
 					cl := m.Clone(l)
 					sub := m.SubList(l, 0, 0)
 					cc := m.Concat(l, m.NewList())
@@ -596,7 +722,11 @@ func (c *Ctx) derivedCorners(prop string) {
 // longLists: list operations at lengths around small-size thresholds and powers of two.
 func (c *Ctx) longLists(prop string) {
 	m := c.M
-	for _, n := range []int{12, 13, 64, 65, 100, 128, 129, 257, c.N(300, 1025)} {
+	sizes := []int{12, 13, 64, 65, 100, 128, 129, 257, c.N(300, 1025)}
+	if prop == "C18" || prop == "C13" {
+		sizes = append(sizes, 1000, 1023, 1025, 1031) // only a few observations each: affordable in every run
+	}
+	for _, n := range sizes {
 		m.Case("long-lists")
 		gs := make([]*GV, n)
 		for i := range gs {
@@ -641,6 +771,11 @@ func (c *Ctx) longLists(prop string) {
 			for _, a := range []string{"intsum", "sum", "prod", "avg", "intmin", "min", "intmax", "max"} {
 				m.Agg(l, a)
 			}
+		case "C13":
+			m.NativeSlice(l)
+			m.Slice(l)
+			holder := m.NewObject(gvStr("rows"), m.RefGV(l))
+			m.NativeDict(holder)
 		case "C19":
 			d := m.Derive(l)
 			m.ForEachAsync(d)
@@ -668,6 +803,19 @@ func (c *Ctx) fluentStates() {
 			m.Pop(d)
 			m.Pop(d)
 		case "grown":
+			for i := 0; i < 70; i++ {
+				m.Add(d, gvInt(i))
+			}
+			for i := 0; i < 68; i++ { // shrink far below the capacity reached: every call still returns the outer value
+				switch i % 3 {
+				case 0:
+					m.Pop(d)
+				case 1:
+					m.Delete(d, 0)
+				default:
+					m.UnsetTF(d, "#0")
+				}
+			}
 			for i := 0; i < 200; i++ {
 				m.Add(d, gvInt(i))
 			}
